@@ -439,29 +439,38 @@ def replay(data):
     from glotaran.parameter import Parameter
 
     if cfg["kind"] == "roundtrip":
-        v = env.get("v", 1.0)
-        kw = {}
-        if cfg["lo"] == "sym":
-            kw["minimum"] = env.get("lo", v - 1)
-        if cfg["lo"] == "zero":
-            kw["minimum"] = 0.0
-        if cfg["hi"] == "sym":
-            kw["maximum"] = env.get("hi", v + 1)
-        with warnings.catch_warnings():
-            warnings.simplefilter("ignore")
-            p = Parameter(label="p", value=float(v), non_negative=cfg["nn"], **kw)
-            x, lb, ub = p.get_value_and_bounds_for_optimization()
-            p.set_value_from_optimization(x)
-            if not (abs(p.value - v) <= 1e-9 * abs(v)):
-                return True, f"Parameter(value={v}, non_negative={cfg['nn']}, {kw}): round trip gives {p.value}"
-            if not (lb <= x + 1e-9 and x - 1e-9 <= ub):
-                return True, f"Parameter(value={v}, non_negative={cfg['nn']}, {kw}): x0 {x} outside bounds [{lb}, {ub}]"
-            y = env.get("y", x)
-            if lb <= y <= ub:
-                p.set_value_from_optimization(y)
+        # the counterexample's value (or 1.0) and a sweep of magnitudes: "very large / small magnitudes" are part of the quantifier and
+        # the place where a transformation that is exact on paper loses digits
+        sweep = [env.get("v", 1.0)] + ([] if env.get("v") is not None and data.get("single") else
+                                       [1.0, 2.6e-12, 7.3e-9, 1e-5, 0.37, 42.0, 3.1e7, 8.8e11])
+        for v in sweep:
+            kw = {}
+            if cfg["lo"] == "sym":
+                kw["minimum"] = env.get("lo", v - 1) if v == sweep[0] else (0.5 * v if cfg["nn"] else v - abs(v))
+            if cfg["lo"] == "zero":
+                kw["minimum"] = 0.0
+            if cfg["hi"] == "sym":
+                kw["maximum"] = env.get("hi", v + 1) if v == sweep[0] else 2.0 * abs(v) + (0 if cfg["nn"] else 1)
+            with warnings.catch_warnings():
+                warnings.simplefilter("ignore")
+                try:
+                    p = Parameter(label="p", value=float(v), non_negative=cfg["nn"], **kw)
+                except Exception:  # noqa: BLE001 - value outside the bounds of this combination
+                    continue
+                x, lb, ub = p.get_value_and_bounds_for_optimization()
+                p.set_value_from_optimization(x)
+                if not (abs(p.value - v) <= 1e-9 * abs(v)):
+                    return True, f"Parameter(value={v}, non_negative={cfg['nn']}, {kw}): round trip gives {p.value}"
+                if not (lb <= x + 1e-9 and x - 1e-9 <= ub):
+                    return True, f"Parameter(value={v}, non_negative={cfg['nn']}, {kw}): x0 {x} outside bounds [{lb}, {ub}]"
                 lo, hi = kw.get("minimum", -INF), kw.get("maximum", INF)
-                if not (lo - 1e-12 <= p.value <= hi + 1e-12) or (cfg["nn"] and not p.value > 0):
-                    return True, f"Parameter({kw}, non_negative={cfg['nn']}): iterate {y} in [{lb},{ub}] maps to {p.value}"
+                for y in ([env.get("y", x)] if v == sweep[0] else []) + [lb, ub]:
+                    if not (np.isfinite(y) and lb <= y <= ub):
+                        continue
+                    p.set_value_from_optimization(y)
+                    if not (lo - 1e-9 * abs(lo) - 1e-300 <= p.value <= hi + 1e-9 * abs(hi) + 1e-300) or (cfg["nn"] and not p.value > 0):
+                        return True, (f"Parameter({kw}, non_negative={cfg['nn']}): optimiser value {y} inside the transformed bounds [{lb},{ub}] "
+                                      f"maps to {p.value}, outside [{lo}, {hi}]")
         return False, "round trip ok"
     if cfg["kind"] == "vector":
         def val(n):
